@@ -830,6 +830,8 @@ var c19RandPats = [][]c19Atom{
 	{{"[a-c]", true}, {"*", true}}, {{"*", true}, {"*", true}}, {{"[[:alpha:]]", true}, {"*", true}}, {{"[]", true}, {"*", true}},
 	{{"[", true}, {"a", false}}, {{"*", true}, {"]", false}}, {{"[a", true}}, {{"?", true}, {"*", true}}, {{"[^a]", true}, {"*", true}},
 	{{"[x-a]", true}}, {{"[!.]", true}, {"*", true}}, {{"***", true}}, {{"**", true}, {"a", false}},
+	{{"[a", true}, {"]", false}}, {{"[a", true}, {"-", false}, {"c]", true}}, {{"[", true}, {"!", false}, {"a]", true}},
+	{{"[", true}, {"a*", false}, {"]", true}}, {{"[[:alpha:]", true}, {"]", false}, {"]", true}},
 }
 
 func c19Patternize(r *Rand, name string, opts int) []c19Atom {
@@ -874,7 +876,7 @@ func c19Patternize(r *Rand, name string, opts int) []c19Atom {
 		default:
 			br = "[[:alnum:]" + string(ch) + "]"
 		}
-		if strings.ContainsAny(string(ch), `]\!^-[`) || ch >= 0x80 {
+		if !c19SafeUnq(ch) || strings.ContainsAny(string(ch), `^-/`) {
 			br = "?"
 		}
 		return []c19Atom{lit(name[:i]), {br, true}, lit(name[i+1:])}
@@ -1043,7 +1045,12 @@ func c19GenCase(r *Rand, thorough bool) c19Case {
 			}
 		}
 		if cs.opts&c19Ext != 0 && r.Chance(25) || r.Chance(2) {
-			atoms = append(atoms, c19Atom{"\x00g" + r.Pick(c19ExtPats), true})
+			ep := r.Pick(c19ExtPats)
+			close := strings.LastIndexByte(ep, ')')
+			atoms = append(atoms, c19Atom{"\x00g" + ep[:close+1], true})
+			if close+1 < len(ep) {
+				atoms = append(atoms, c19Atom{ep[close+1:], false})
+			}
 			ext = true
 			continue
 		}
@@ -1359,6 +1366,25 @@ func c19Excl(cs c19Case) string {
 			}
 		}
 	}
+	// C19-quoted-bracket-special: QuoteMeta does not escape ] ! ^ - , so quoted text can close, negate
+	// or make a range in a bracket expression that an unquoted [ opened
+	openBr := false
+	for _, s := range cs.segs {
+		switch s.kind {
+		case 'u', 'g':
+			if strings.Contains(s.val, "[") {
+				openBr = true
+			}
+		case 'p':
+			if strings.Contains(cs.vars[s.idx], "[") {
+				openBr = true
+			}
+		case 's', 'd':
+			if openBr && strings.ContainsAny(s.val, "]!^-") {
+				return "quoted-bracket-special"
+			}
+		}
+	}
 	escaped, candidate := c19Escaped(cs)
 	globbed := candidate && c19HasMeta(escaped) && cs.opts&c19NoGlob == 0
 	if !globbed {
@@ -1381,6 +1407,16 @@ func c19Excl(cs c19Case) string {
 	sawName := false // a component other than . and .. came before
 	dirLink := c19HasDirLink(cs)
 	broken := c19BrokenLinkNames(cs)
+	dotNames := false
+	{
+		var all []c19Placed
+		c19Collect(cs.root, nil, &all)
+		for _, p := range all {
+			if len(p.path) > 0 && strings.HasPrefix(p.path[len(p.path)-1], ".") {
+				dotNames = true
+			}
+		}
+	}
 	for i, comp := range comps {
 		last := i == len(comps)-1
 		meta := c19HasMeta(comp)
@@ -1422,7 +1458,7 @@ func c19Excl(cs c19Case) string {
 					return "nullglob-bad-pattern"
 				}
 			}
-			if cs.opts&c19Dot == 0 && c19LeadingDotRisk(comp, ext) {
+			if cs.opts&c19Dot == 0 && dotNames && c19LeadingDotRisk(comp, ext) {
 				return "leading-dot"
 			}
 		}
